@@ -385,7 +385,7 @@ func (c *Ctx) flatKnown(t *geval.SymType) geval.Tri {
 		}
 	}
 	for k, v := range c.In.Path.Preds {
-		if strings.HasSuffix(k, "("+t.R().Desc+")") && (strings.Contains(k, "canEqual") || strings.Contains(k, "canCopy") || strings.Contains(k, "IsComparable")) {
+		if strings.HasSuffix(k, "("+t.R().Desc+")") && (strings.Contains(k, "canEqual") || strings.Contains(k, "canCopy") || strings.Contains(k, "derive.IsComparable")) {
 			return v
 		}
 	}
